@@ -4,7 +4,8 @@
    the store invariant the handlers rely on (every stored key is the
    serialisation of a sanitised peer of the swarm's own family) is preserved. *)
 From Coq Require Import ZifyBool ZifyNat.
-From Chihaya Require Proofs.SelectP Proofs.SourceIPP Proofs.UdpParseP Proofs.ConnIDP.
+From Chihaya Require Proofs.SelectP Proofs.SourceIPP Proofs.UdpParseP Proofs.ConnIDP Proofs.MemP Proofs.RedisP
+  Proofs.QueryP Proofs.HttpParseP Proofs.HttpWriteP.
 From Chihaya Require Import Proofs.SwarmP Proofs.SpecP.
 From Chihaya Require Import Model.Tracker.
 Open Scope Z_scope.
@@ -130,6 +131,46 @@ Proof.
   intros Hk. apply keys_ok_sw. intros ih v6. rewrite sm_gc_lookup. apply sw_ok_expire, keys_ok_sw, Hk.
 Qed.
 
+(* every store reachable by sane operations satisfies the invariant *)
+Definition sop_sane (o : sop) : Prop :=
+  match o with
+  | SClock _ | SExpire _ | SDelSeeder _ _ _ | SDelLeecher _ _ _ => True
+  | SAnnounce a => sane_peer (a_v6 a) (a_peer a)
+  | SPutSeeder _ v6 pk | SPutLeecher _ v6 pk | SGraduate _ v6 pk => key_ok v6 pk
+  end.
+
+Lemma sapply_keys_ok x o : sop_sane o → keys_ok x.1 → keys_ok (sapply spec_if x o).1.
+Proof.
+  destruct x as [sp c]. cbn [fst]. intros Hs Hk. destruct o; cbn [sapply fst sop_sane] in *; try done.
+  - apply keys_ok_announce; done.
+  - apply keys_ok_sw. intros ih' v6'. cbn [st_put_seeder spec_if]. rewrite sm_put_seeder_lookup.
+    destruct (decide _) as [[= -> ->]|]; [|apply keys_ok_sw, Hk]. apply sw_ok_put_seeder; [done|apply keys_ok_sw, Hk].
+  - apply keys_ok_sw. intros ih' v6'. cbn [st_del_seeder spec_if].
+    replace (match sm_del_seeder (ih, v6) pk sp with Some m' => (m', true) | None => (sp, false) end).1
+      with (default sp (sm_del_seeder (ih, v6) pk sp)) by (destruct (sm_del_seeder (ih, v6) pk sp); done).
+    rewrite sm_del_seeder_lookup.
+    destruct (decide _) as [[= -> ->]|]; [|apply keys_ok_sw, Hk]. apply sw_ok_del_seeder, keys_ok_sw, Hk.
+  - apply keys_ok_sw. intros ih' v6'. cbn [st_put_leecher spec_if]. rewrite sm_put_leecher_lookup.
+    destruct (decide _) as [[= -> ->]|]; [|apply keys_ok_sw, Hk]. apply sw_ok_put_leecher; [done|apply keys_ok_sw, Hk].
+  - apply keys_ok_sw. intros ih' v6'. cbn [st_del_leecher spec_if].
+    replace (match sm_del_leecher (ih, v6) pk sp with Some m' => (m', true) | None => (sp, false) end).1
+      with (default sp (sm_del_leecher (ih, v6) pk sp)) by (destruct (sm_del_leecher (ih, v6) pk sp); done).
+    rewrite sm_del_leecher_lookup.
+    destruct (decide _) as [[= -> ->]|]; [|apply keys_ok_sw, Hk]. apply sw_ok_del_leecher, keys_ok_sw, Hk.
+  - apply keys_ok_sw. intros ih' v6'. cbn [st_graduate spec_if]. rewrite sm_graduate_lookup.
+    destruct (decide _) as [[= -> ->]|]; [|apply keys_ok_sw, Hk]. apply sw_ok_graduate; [done|apply keys_ok_sw, Hk].
+  - cbn [st_gc spec_if]. apply keys_ok_gc, Hk.
+Qed.
+
+Theorem run_spec_keys_ok ops : Forall sop_sane ops → keys_ok (run_spec ops).
+Proof.
+  unfold run_spec, srun.
+  assert (G : ∀ x, Forall sop_sane ops → keys_ok x.1 → keys_ok (fold_left (sapply spec_if) ops x).1).
+  { induction ops as [|o ops IH]; intros x Hs Hx; [done|]. apply Forall_cons in Hs as [Ho Hs].
+    cbn [fold_left]. apply IH; [exact Hs|]. apply sapply_keys_ok; done. }
+  intros Hs. apply G; [exact Hs|]. apply keys_ok_init.
+Qed.
+
 (* ------------------------------------------------------------------ 3. the response hook *)
 Lemma select_ref_In S L ann seeder nw k :
   In k (select_ref S L ann seeder nw) → In k S ∨ In k L.
@@ -207,12 +248,14 @@ Proof.
     injection Hs as <-. unfold sane_peer. cbn. done.
 Qed.
 
-Theorem udp_request_peer_sane v6a o ip packet r q :
+(* (SanitizeAnnounce itself rejects an address that is neither 4 nor 16 bytes long, so the
+   length of the source address is not needed here) *)
+Lemma udp_request_peer_sane_strong v6a o ip packet r q :
   UdpParse.parse_announce v6a o (Some ip) packet = UdpParse.Accept (r, q) →
-  wf_bytes packet = true → wf_bytes ip = true → (length ip = 4 ∨ length ip = 16)%nat →
+  wf_bytes packet = true → wf_bytes ip = true →
   sane_peer (match r_af r with V6 => true | V4 => false end) (r_peer r).
 Proof.
-  intros H Hpw Hipw Hiplen.
+  intros H Hpw Hipw.
   destruct (Nat.ltb_spec (length packet) (UdpParse.ip_end v6a + 10)) as [C|C].
   { rewrite UdpParseP.udp_short_rejected in H by exact C. discriminate. }
   destruct (UdpParseP.parse_announce_total v6a o (Some ip) packet C) as (ev & _ & E). rewrite E in H. clear E.
@@ -233,6 +276,49 @@ Proof.
     replace (UdpParse.ip_end v6a + 10 - (UdpParse.ip_end v6a + 8))%nat with 2%nat in B by lia.
     change (256 ^ Z.of_nat 2) with 65536 in B. exact B.
   - unfold UdpParse.choose_ip in Ec. destruct (_ && _); injection Ec as <- <-; [apply wf_bytes_sub, Hpw|exact Hipw].
+Qed.
+
+Theorem udp_request_peer_sane v6a o ip packet r q :
+  UdpParse.parse_announce v6a o (Some ip) packet = UdpParse.Accept (r, q) →
+  wf_bytes packet = true → wf_bytes ip = true → (length ip = 4 ∨ length ip = 16)%nat →
+  sane_peer (match r_af r with V6 => true | V4 => false end) (r_peer r).
+Proof. intros H Hpw Hipw _. eapply udp_request_peer_sane_strong; eauto. Qed.
+
+(* the infohashes the UDP parsers hand to the logic are 20 well-formed bytes *)
+Lemma udp_request_ih_wf v6a o src packet r q :
+  UdpParse.parse_announce v6a o src packet = UdpParse.Accept (r, q) → wf_bytes packet = true → ih_wf (r_ih r).
+Proof.
+  intros H Hpw.
+  destruct (Nat.ltb_spec (length packet) (UdpParse.ip_end v6a + 10)) as [C|C].
+  { rewrite UdpParseP.udp_short_rejected in H by exact C. discriminate. }
+  destruct (UdpParseP.parse_announce_total v6a o src packet C) as (ev & _ & E). rewrite E in H. clear E.
+  assert (E : (88 <= UdpParse.ip_end v6a <= 100)%nat) by (destruct v6a; cbn; lia).
+  unfold UdpParse.announce_of_fields in H.
+  destruct (_ <=? ev); [discriminate|].
+  destruct (UdpParse.choose_ip o src _) as [oip pr].
+  destruct (negb (UdpParse.o_spoof o) && _); [discriminate|].
+  destruct (UdpParse.handle_optional _) as [q'|e|]; try discriminate.
+  destruct (nth_error UdpParse.event_ids (Z.to_nat ev)) as [e|]; [|discriminate].
+  destruct (sanitize_announce _ _ _) as [e'|r'] eqn:S; [discriminate|].
+  injection H as <- <-. apply UdpParseP.sanitize_keeps in S as (_ & -> & _). cbn [r_ih].
+  split; [rewrite sub_length by lia; lia|apply wf_bytes_sub, Hpw].
+Qed.
+
+Lemma chunks20_wf k : ∀ b, (20 * k <= length b)%nat → wf_bytes b = true → Forall ih_wf (UdpParse.chunks20 k b).
+Proof.
+  induction k as [|k IH]; intros b L Hw; cbn [UdpParse.chunks20]; constructor.
+  - split; [rewrite firstn_length; lia|apply wf_bytes_firstn, Hw].
+  - apply IH; [rewrite skipn_length; lia|apply wf_bytes_skipn, Hw].
+Qed.
+
+Lemma udp_scrape_ihs_wf o packet ihs :
+  UdpParse.parse_scrape o packet = UdpParse.Accept ihs → wf_bytes packet = true → Forall ih_wf ihs.
+Proof.
+  unfold UdpParse.parse_scrape. destruct (Nat.ltb_spec (length packet) 36) as [C|C]; [done|].
+  rewrite slice_some by lia. destruct (negb _); [done|]. intros [= <-] Hw.
+  assert (F : Forall ih_wf (UdpParse.chunks20 (length (sub 16 (length packet) packet) / 20) (sub 16 (length packet) packet))).
+  { apply chunks20_wf; [|apply wf_bytes_sub, Hw]. apply Nat.mul_div_le. lia. }
+  unfold sanitize_scrape. destruct (_ >? _); [apply Forall_take, F|exact F].
 Qed.
 
 (* ------------------------------------------------------------------ 5. UDP: the headline *)
@@ -305,7 +391,7 @@ Lemma udp_run_no_panic_from mac t u reqs : ∀ sp outs,
 Proof.
   induction reqs as [|[[clock ip] packet] reqs IH]; intros sp outs Hk Hw Ho.
   - exists sp, outs. cbn. split; [done|]. split; [done|]. split; [lia|done].
-  - inversion Hw as [|x l (Hpw & Hipw & Hip) Hw']; subst. cbn [fold_left udp_run_step].
+  - apply Forall_cons in Hw as [(Hpw & Hipw & Hip) Hw']. cbn [fold_left udp_run_step].
     destruct (udp_step_no_panic mac t u sp clock ip packet Hk Hpw Hipw Hip) as (sp1 & out & -> & Hk1 & L1).
     destruct (IH sp1 (outs ++ [out]) Hk1 Hw') as (sp' & outs' & -> & Hk' & L' & F').
     { apply Forall_app. split; [exact Ho|]. constructor; [exact L1|constructor]. }
@@ -324,3 +410,566 @@ Proof.
   { constructor. }
   exists sp, outs. done.
 Qed.
+
+(* ------------------------------------------------------------------ 7. exactly one response *)
+(* a datagram that carries a valid connection ID and parses (the dispatcher and the parser
+   hand it to the logic) is answered by exactly one datagram *)
+Theorem udp_wellformed_one_response mac t u sp clock ip packet :
+  keys_ok sp → wf_bytes packet = true → wf_bytes ip = true → (length ip = 4 ∨ length ip = 16)%nat →
+  (∃ txid v6a r q, UdpParse.handle_udp mac (uc_key u) (uc_skew u) clock (uc_opts u) ip packet
+                   = UdpParse.UAnnounce txid v6a r q) ∨
+  (∃ txid af ihs, UdpParse.handle_udp mac (uc_key u) (uc_skew u) clock (uc_opts u) ip packet
+                  = UdpParse.UScrape txid af ihs) →
+  ∃ sp' d, udp_step spec_if mac t u sp clock ip packet = Some (sp', [d]) ∧ keys_ok sp'.
+Proof.
+  intros Hk Hpw Hipw Hip [(txid & v6a & r & q & E)|(txid & af & ihs & E)]; unfold udp_step; rewrite E.
+  - apply UdpParseP.udp_logic_only_after_parse in E.
+    pose proof (udp_request_peer_sane _ _ _ _ _ _ E Hpw Hipw Hip) as Hs.
+    destruct (respond_no_panic (ann_of_areq r) sp Hk Hs) as (c & i & ps & -> & _ & _).
+    eexists _, _. split; [reflexivity|]. apply keys_ok_announce; [exact Hk|exact Hs].
+  - eexists _, _. split; [reflexivity|exact Hk].
+Qed.
+
+(* ------------------------------------------------------------------ 8. transfer to the real stores *)
+Section Transfer.
+  Context {S : Type} (I : store_if S).
+
+  Lemma respond_observe_at a (st : S) sp :
+    observe I st (a_ih a) (a_v6 a) = observe spec_if sp (a_ih a) (a_v6 a) →
+    respond I a st = respond spec_if a sp.
+  Proof.
+    unfold observe. intros [= Hs Hm]. unfold respond, key_lists. rewrite Hs, Hm. done.
+  Qed.
+
+  Lemma respond_observe a (st : S) sp :
+    (∀ ih v6, observe I st ih v6 = observe spec_if sp ih v6) → respond I a st = respond spec_if a sp.
+  Proof. intros H. apply respond_observe_at, H. Qed.
+
+  Lemma udp_scrape_datagram_observe txid v6 ihs (st : S) sp :
+    (∀ ih, In ih ihs → observe I st ih v6 = observe spec_if sp ih v6) →
+    udp_scrape_datagram I txid v6 ihs st = udp_scrape_datagram spec_if txid v6 ihs sp.
+  Proof.
+    intros H. unfold udp_scrape_datagram. f_equal. apply map_ext_in. intros ih Hin.
+    specialize (H ih Hin). unfold observe in H. injection H as Hs _. rewrite Hs. done.
+  Qed.
+
+  (* the datagrams sent depend on the store only through what can be observed of it *)
+  Lemma udp_step_observe mac t u (st : S) sp clock ip packet :
+    (∀ ih v6, observe I st ih v6 = observe spec_if sp ih v6) →
+    option_map snd (udp_step I mac t u st clock ip packet) =
+    option_map snd (udp_step spec_if mac t u sp clock ip packet).
+  Proof.
+    intros H. unfold udp_step.
+    destruct (UdpParse.handle_udp _ _ _ _ _ _ _) as [|d| |txid v6a r q|txid af ihs]; try done.
+    - rewrite (respond_observe _ st sp H).
+      destruct (respond spec_if (ann_of_areq r) sp) as [[[c i] ps]|]; done.
+    - cbn [option_map snd]. rewrite (udp_scrape_datagram_observe _ _ _ st sp); [done|]. intros ih _. apply H.
+  Qed.
+End Transfer.
+
+(* the memory store (any shard count) answers every datagram exactly as the specification *)
+Corollary udp_step_mem_spec n ops mac t u clock ip packet : (0 < n)%nat →
+  option_map snd (udp_step (mem_if n) mac t u (run_mem n ops) clock ip packet) =
+  option_map snd (udp_step spec_if mac t u (run_spec ops) clock ip packet).
+Proof. intros Hn. apply udp_step_observe. intros ih v6. apply MemP.mem_refines_spec, Hn. Qed.
+
+(* ------------------------------------------------------------------ 4b. HTTP: the request peer is sane *)
+(* bytes stay bytes through url.QueryUnescape and the query splitter *)
+Lemma unhex_range c : 0 <= Query.unhex c < 16.
+Proof.
+  unfold Query.unhex.
+  destruct ((48 <=? c) && (c <=? 57)) eqn:E1; [lia|].
+  destruct ((97 <=? c) && (c <=? 102)) eqn:E2; [lia|].
+  destruct ((65 <=? c) && (c <=? 70)) eqn:E3; lia.
+Qed.
+
+Lemma wf_bytes_cons x l : wf_bytes (x :: l) = true ↔ 0 <= x < 256 ∧ wf_bytes l = true.
+Proof. cbn [wf_bytes forallb]. fold (wf_bytes l). rewrite andb_true_iff, is_byte_iff. done. Qed.
+
+Lemma unescape_wf s : ∀ s', Query.unescape s = Some s' → wf_bytes s = true → wf_bytes s' = true.
+Proof.
+  induction s as [s IH] using (induction_ltof1 _ (@length Z)); unfold ltof in IH. intros s' H Hw.
+  destruct s as [|c r]; cbn [Query.unescape] in H; [by injection H as <-|].
+  apply wf_bytes_cons in Hw as [Hc Hr].
+  destruct (c =? 37).
+  - destruct r as [|x [|y r']]; try done.
+    destruct (Query.is_hex x && Query.is_hex y); [|done].
+    apply wf_bytes_cons in Hr as [_ Hr]. apply wf_bytes_cons in Hr as [_ Hr].
+    destruct (Query.unescape r') as [t|] eqn:E; [|done]. injection H as <-.
+    apply wf_bytes_cons. split.
+    + pose proof (unhex_range x). pose proof (unhex_range y). lia.
+    + apply (IH r'); [cbn [length]; lia|done|done].
+  - destruct (Query.unescape r) as [t|] eqn:E; [|done]. injection H as <-.
+    apply wf_bytes_cons. split.
+    + destruct (c =? 43); lia.
+    + apply (IH r); [cbn [length]; lia|done|done].
+Qed.
+
+Lemma cut_at_wf c s (pre : list Z) (post : option (list Z)) : Query.cut_at c s = (pre, post) → wf_bytes s = true →
+  wf_bytes pre = true ∧ wf_bytes (default [] post) = true.
+Proof.
+  revert pre post. induction s as [|x s IH]; intros pre post H Hw; cbn [Query.cut_at] in H.
+  - by injection H as <- <-.
+  - apply wf_bytes_cons in Hw as [Hx Hs]. destruct (x =? c).
+    + injection H as <- <-. done.
+    + destruct (Query.cut_at c s) as [pre' post'] eqn:E. injection H as <- <-.
+      destruct (IH pre' post' eq_refl Hs) as [Ha Hb]. split; [|done]. apply wf_bytes_cons. done.
+Qed.
+
+Lemma split_on_wf sep s : ∀ cur, wf_bytes s = true → wf_bytes cur = true →
+  Forall (λ seg, wf_bytes seg = true) (Query.split_on sep s cur).
+Proof.
+  assert (R : ∀ l, wf_bytes l = true → wf_bytes (rev l) = true).
+  { intros l. rewrite !wf_bytes_forall. apply Forall_rev. }
+  induction s as [|x s IH]; intros cur Hw Hc; cbn [Query.split_on].
+  - constructor; [apply R, Hc|constructor].
+  - apply wf_bytes_cons in Hw as [Hx Hs]. destruct (sep x).
+    + constructor; [apply R, Hc|]. apply IH; done.
+    + apply IH; [done|]. apply wf_bytes_cons. done.
+Qed.
+
+Definition acc_wf (acc : list (list Z * list Z) * list (list Z)) : Prop :=
+  Forall (λ kv, wf_bytes kv.2 = true) acc.1 ∧ Forall (λ ih, wf_bytes ih = true) acc.2.
+
+Lemma parse_segment_wf seg acc acc' :
+  Query.parse_segment seg acc = inr acc' → wf_bytes seg = true → acc_wf acc → acc_wf acc'.
+Proof.
+  unfold Query.parse_segment. destruct seg as [|c s]; [by intros [= <-]|].
+  destruct (Query.cut_at 61 (c :: s)) as [k v] eqn:EC. intros H Hw [Ha1 Ha2].
+  destruct (cut_at_wf _ _ _ _ EC Hw) as [Hk Hv].
+  destruct (Query.unescape k) as [k'|] eqn:Ek; [|done].
+  destruct (Query.unescape (match v with Some v0 => v0 | None => [] end)) as [v'|] eqn:Ev; [|done].
+  assert (Hv' : wf_bytes v' = true).
+  { eapply unescape_wf; [exact Ev|]. destruct v; exact Hv. }
+  destruct (bytes_eqb k' Query.info_hash_key).
+  - destruct (Nat.eqb (length v') 20); [|done]. injection H as <-. split; cbn [fst snd]; [done|].
+    apply Forall_app. split; [done|]. constructor; [done|constructor].
+  - injection H as <-. split; cbn [fst snd]; [|done]. constructor; done.
+Qed.
+
+Lemma parse_segments_wf segs : ∀ acc acc',
+  Query.parse_segments segs acc = inr acc' → Forall (λ seg, wf_bytes seg = true) segs → acc_wf acc → acc_wf acc'.
+Proof.
+  induction segs as [|s segs IH]; intros acc acc' H Hw Ha; cbn [Query.parse_segments] in H.
+  - by injection H as <-.
+  - apply Forall_cons in Hw as [Hs Hw].
+    destruct (Query.parse_segment s acc) as [e|acc1] eqn:E; [done|].
+    eapply IH; [exact H|exact Hw|]. eapply parse_segment_wf; eauto.
+Qed.
+
+Lemma parse_url_data_wf uri q : Query.parse_url_data uri = inr q → wf_bytes uri = true →
+  Forall (λ kv, wf_bytes kv.2 = true) (Query.q_params q) ∧ Forall (λ ih, wf_bytes ih = true) (Query.q_ihs q).
+Proof.
+  unfold Query.parse_url_data. destruct (Query.cut_at 63 uri) as [path qq] eqn:EC. intros H Hw.
+  destruct (cut_at_wf _ _ _ _ EC Hw) as [_ Hq].
+  unfold Query.parse_query in H.
+  destruct (Query.parse_segments _ _) as [e|[ps ihs]] eqn:E; [done|]. injection H as <-. cbn [Query.q_params Query.q_ihs].
+  apply (parse_segments_wf _ _ _ E).
+  - apply split_on_wf; [destruct qq; exact Hq|done].
+  - split; constructor.
+Qed.
+
+Lemma q_string_wf q name s : Forall (λ kv, wf_bytes kv.2 = true) (Query.q_params q) →
+  Query.q_string q name = Some s → wf_bytes s = true.
+Proof.
+  intros F H. unfold Query.q_string in H. apply QueryP.q_lookup_some_in in H.
+  rewrite Forall_forall in F. apply elem_of_list_In in H. apply (F _ H).
+Qed.
+
+Section HttpSane.
+  Variable parse_ip : list Z → option (list Z).
+  Variable header_get split_host : list Z → list Z.
+  (* what the handlers need of net.ParseIP: it returns a byte slice *)
+  Hypothesis parse_ip_wf : ∀ s ip, parse_ip s = Some ip → wf_bytes ip = true.
+
+  Lemma http_request_peer_sane_wf o uri remote r q :
+    HttpParse.parse_announce parse_ip header_get split_host o uri remote = HttpParse.Accept (r, q) →
+    wf_bytes uri = true →
+    sane_peer (match r_af r with V6 => true | V4 => false end) (r_peer r).
+  Proof.
+    intros H Hw. unfold HttpParse.parse_announce in H.
+    destruct (Query.parse_url_data uri) as [e|q'] eqn:EU; [done|].
+    destruct (HttpParse.announce_of_params _ _ _ o q' remote) as [r'| |] eqn:EA; try done.
+    injection H as <- <-.
+    destruct (parse_url_data_wf _ _ EU Hw) as [Hps _].
+    apply HttpParseP.announce_of_params_accept in EA
+      as (event & ih & pid & nleft & dl & ul & nw & port & ip & ipp & CK & ES).
+    destruct CK as (_ & _ & Hpid & Hlen & _ & _ & _ & _ & _ & Hport & Hip).
+    apply sanitize_sane in ES; [exact ES|unfold HttpParseP.raw_req; cbn [r_peer p_id p_ip p_port]..].
+    - exact Hlen.
+    - eapply q_string_wf; eauto.
+    - unfold HttpParse.q_uint in Hport. destruct (Query.q_string q' HttpParse.k_port) as [s|]; [|done].
+      destruct (Decimal.parse_uint 16 s) as [v|] eqn:EP; [|done]. injection Hport as <-.
+      apply Decimal.parse_uint_some in EP as (_ & _ & R). change (2 ^ 16) with 65536 in R. exact R.
+    - unfold HttpParse.requested_ip in Hip.
+      destruct (HttpParse.ip_source _ _ o q' remote) as [s pr]. injection Hip as Hp _.
+      eapply parse_ip_wf, Hp.
+  Qed.
+End HttpSane.
+
+Theorem http_request_peer_sane parse_ip header_get split_host o uri remote r q :
+  (∀ s ip, parse_ip s = Some ip → wf_bytes ip = true ∧ (length ip = 4 ∨ length ip = 16)%nat) →
+  HttpParse.parse_announce parse_ip header_get split_host o uri remote = HttpParse.Accept (r, q) →
+  wf_bytes uri = true →
+  sane_peer (match r_af r with V6 => true | V4 => false end) (r_peer r).
+Proof.
+  intros Ho. apply http_request_peer_sane_wf. intros s ip Hp. apply (Ho s ip Hp).
+Qed.
+
+(* ------------------------------------------------------------------ 6. HTTP *)
+Lemma compact4_sane ps : Forall (sane_peer false) ps → ∃ c, HttpWrite.compact_all HttpWrite.compact4 ps = Some c.
+Proof.
+  induction ps as [|p ps IH]; intros F; [by exists []|].
+  apply Forall_cons in F as [(_ & _ & _ & _ & L4) F]. destruct (IH F) as (c & E).
+  cbn [HttpWrite.compact_all]. unfold HttpWrite.compact4 at 1. rewrite (HttpParseP.to4_of_4 _ L4), E. eauto.
+Qed.
+Lemma compact6_sane ps : Forall (sane_peer true) ps → ∃ c, HttpWrite.compact_all HttpWrite.compact6 ps = Some c.
+Proof.
+  induction ps as [|p ps IH]; intros F; [by exists []|].
+  apply Forall_cons in F as [(_ & _ & _ & _ & L16 & _) F]. destruct (IH F) as (c & E).
+  cbn [HttpWrite.compact_all]. unfold HttpWrite.compact6 at 1, to16. rewrite L16, E. cbn. eauto.
+Qed.
+
+Lemma http_announce_value_sane t compact a c i ps :
+  Forall (sane_peer (a_v6 a)) ps → ∃ v, http_announce_value t compact a c i ps = Some v.
+Proof.
+  intros F. unfold http_announce_value, HttpWrite.announce_value.
+  cbn [HttpWrite.a_compact HttpWrite.a_v4 HttpWrite.a_v6].
+  destruct compact; [|eauto]. destruct (a_v6 a).
+  - destruct (compact6_sane ps F) as (c6 & ->). cbn. eauto.
+  - destruct (compact4_sane ps F) as (c4 & ->). cbn. eauto.
+Qed.
+
+Section HttpStep.
+  Variable parse_ip : list Z → option (list Z).
+  Variable header_get split_host : list Z → list Z.
+  Hypothesis parse_ip_wf : ∀ s ip, parse_ip s = Some ip → wf_bytes ip = true.
+
+  Lemma http_announce_no_panic_wf t o sp clock uri remote :
+    keys_ok sp → wf_bytes uri = true →
+    ∃ sp' v, http_announce_step spec_if parse_ip header_get split_host t o sp clock uri remote = (sp', HBody v) ∧
+             keys_ok sp'.
+  Proof.
+    intros Hk Hw. unfold http_announce_step.
+    destruct (HttpParseP.parse_announce_total parse_ip header_get split_host o uri remote) as [[[r q] E]|[msg E]];
+      rewrite E.
+    - pose proof (http_request_peer_sane_wf _ _ _ parse_ip_wf _ _ _ _ _ E Hw) as Hs.
+      destruct (respond_no_panic (ann_of_areq r) sp Hk Hs) as (c & i & ps & -> & _ & F).
+      destruct (http_announce_value_sane t (r_compact r) (ann_of_areq r) c i ps F) as (v & ->).
+      eexists _, _. split; [reflexivity|]. apply keys_ok_announce; [exact Hk|exact Hs].
+    - eexists _, _. split; [reflexivity|exact Hk].
+  Qed.
+
+  (* the scrape route reads the store only; no hypothesis at all *)
+  Lemma http_scrape_no_panic_any {S : Type} (I : store_if S) split_ok o (st : S) uri remote :
+    ∃ v, http_scrape_step I parse_ip split_host split_ok o st uri remote = HBody v.
+  Proof.
+    unfold http_scrape_step.
+    destruct (HttpParseP.parse_scrape_total o uri) as [[[ihs q] E]|[msg E]]; rewrite E; [|eauto].
+    unfold HttpParse.scrape_route_af. destruct (negb split_ok); [eauto|].
+    destruct (parse_ip (split_host remote)) as [ip|]; [|eauto].
+    destruct (to4 ip); [eauto|]. destruct (Nat.eqb (length ip) 16); eauto.
+  Qed.
+End HttpStep.
+
+Theorem http_announce_no_panic parse_ip header_get split_host t o sp clock uri remote :
+  (∀ s ip, parse_ip s = Some ip → wf_bytes ip = true ∧ (length ip = 4 ∨ length ip = 16)%nat) →
+  keys_ok sp → wf_bytes uri = true →
+  ∃ sp' v, http_announce_step spec_if parse_ip header_get split_host t o sp clock uri remote = (sp', HBody v) ∧
+           keys_ok sp'.
+Proof.
+  intros Ho. apply http_announce_no_panic_wf. intros s ip Hp. apply (Ho s ip Hp).
+Qed.
+
+Corollary http_announce_not_HPanic parse_ip header_get split_host t o sp clock uri remote :
+  (∀ s ip, parse_ip s = Some ip → wf_bytes ip = true ∧ (length ip = 4 ∨ length ip = 16)%nat) →
+  keys_ok sp → wf_bytes uri = true →
+  (http_announce_step spec_if parse_ip header_get split_host t o sp clock uri remote).2 ≠ HPanic ∧
+  keys_ok (http_announce_step spec_if parse_ip header_get split_host t o sp clock uri remote).1.
+Proof.
+  intros Ho Hk Hw.
+  destruct (http_announce_no_panic parse_ip header_get split_host t o sp clock uri remote Ho Hk Hw) as (sp' & v & -> & Hk').
+  done.
+Qed.
+
+Theorem http_scrape_no_panic parse_ip split_host split_ok o sp uri remote :
+  http_scrape_step spec_if parse_ip split_host split_ok o sp uri remote ≠ HPanic.
+Proof.
+  destruct (http_scrape_no_panic_any parse_ip split_host spec_if split_ok o sp uri remote) as (v & ->). done.
+Qed.
+
+(* ------------------------------------------------------------------ 8b. whole histories on the real memory store *)
+Section RunOn.
+  Context {S : Type} (I : store_if S).
+  Definition udp_run_step_on (mac : list Z → list Z → list Z) (t : tcfg) (u : ucfg)
+             (acc : option (S * list (list (list Z)))) (x : Z * list Z * list Z) :=
+    match acc with
+    | None => None
+    | Some (st, outs) =>
+      let '(clock, ip, packet) := x in
+      match udp_step I mac t u st clock ip packet with
+      | None => None
+      | Some (st', out) => Some (st', outs ++ [out])
+      end
+    end.
+  Definition udp_run_on (mac : list Z → list Z → list Z) (t : tcfg) (u : ucfg)
+             (init : S) (reqs : list (Z * list Z * list Z)) : option (S * list (list (list Z))) :=
+    fold_left (udp_run_step_on mac t u) reqs (Some (init, [])).
+
+  (* the store operation a datagram amounts to *)
+  Definition udp_ops (mac : list Z → list Z → list Z) (u : ucfg) (clock : Z) (ip packet : list Z) : list sop :=
+    match UdpParse.handle_udp mac (uc_key u) (uc_skew u) clock (uc_opts u) ip packet with
+    | UdpParse.UAnnounce _ _ r _ => [SClock clock; SAnnounce (ann_of_areq r)]
+    | _ => []
+    end.
+
+  Lemma udp_step_state mac t u (st st' : S) clock ip packet out c0 :
+    udp_step I mac t u st clock ip packet = Some (st', out) →
+    st' = (fold_left (sapply I) (udp_ops mac u clock ip packet) (st, c0)).1.
+  Proof.
+    unfold udp_step, udp_ops.
+    destruct (UdpParse.handle_udp _ _ _ _ _ _ _) as [|d| |txid v6a r q|txid af ihs]; try (by intros [= <- _]); try done.
+    destruct (respond I (ann_of_areq r) st) as [[[c i] ps]|]; [|done]. by intros [= <- _].
+  Qed.
+End RunOn.
+
+Lemma udp_run_is_on mac t u init reqs : udp_run mac t u init reqs = udp_run_on spec_if mac t u init reqs.
+Proof. reflexivity. Qed.
+
+Lemma srun_app {S : Type} (I : store_if S) init ops ops' :
+  srun I init (ops ++ ops') = fold_left (sapply I) ops' (srun I init ops).
+Proof. unfold srun. apply fold_left_app. Qed.
+
+Lemma udp_ops_sane mac u clock ip packet :
+  wf_bytes packet = true → wf_bytes ip = true →
+  Forall sop_sane (udp_ops mac u clock ip packet) ∧ Forall sop_wf (udp_ops mac u clock ip packet).
+Proof.
+  intros Hpw Hipw. unfold udp_ops.
+  destruct (UdpParse.handle_udp _ _ _ _ _ _ _) as [|d| |txid v6a r q|txid af ihs] eqn:E;
+    try (by split; constructor).
+  apply UdpParseP.udp_logic_only_after_parse in E. split.
+  - constructor; [done|]. constructor; [|constructor].
+    cbn [sop_sane]. eapply udp_request_peer_sane_strong; eauto.
+  - constructor; [done|]. constructor; [|constructor].
+    cbn [sop_wf ann_of_areq a_ih]. eapply udp_request_ih_wf; eauto.
+Qed.
+
+(* the datagrams sent depend on the store only through what can be observed of it at
+   well-formed infohashes - all the UDP parsers ever produce *)
+Lemma udp_step_observe_wf {S : Type} (I : store_if S) mac t u (st : S) sp clock ip packet :
+  wf_bytes packet = true →
+  (∀ ih v6, ih_wf ih → observe I st ih v6 = observe spec_if sp ih v6) →
+  option_map snd (udp_step I mac t u st clock ip packet) =
+  option_map snd (udp_step spec_if mac t u sp clock ip packet).
+Proof.
+  intros Hpw H. unfold udp_step.
+  destruct (UdpParse.handle_udp _ _ _ _ _ _ _) as [|d| |txid v6a r q|txid af ihs] eqn:E; try done.
+  - apply UdpParseP.udp_logic_only_after_parse in E.
+    rewrite (respond_observe_at I (ann_of_areq r) st sp).
+    + destruct (respond spec_if (ann_of_areq r) sp) as [[[c i] ps]|]; done.
+    + apply H. cbn [ann_of_areq a_ih]. eapply udp_request_ih_wf; eauto.
+  - cbn [option_map snd]. rewrite (udp_scrape_datagram_observe I _ _ _ st sp); [done|].
+    intros ih Hin. apply H.
+    assert (F : Forall ih_wf ihs).
+    { unfold UdpParse.handle_udp in E. destruct (ConnID.dispatch_request _ _ _ _ _ _) as [|d| |act tx]; try done.
+      destruct (act =? UdpWrite.act_scrape).
+      - destruct (UdpParse.parse_scrape (uc_opts u) packet) as [l|e|] eqn:EP; try done.
+        destruct (ConnID.ip_family ip); [|done]. injection E as _ _ <-. eapply udp_scrape_ihs_wf; eauto.
+      - destruct (UdpParse.parse_announce _ _ _ _) as [[r q]|e|]; done. }
+    rewrite Forall_forall in F. apply F, elem_of_list_In, Hin.
+Qed.
+
+(* any store that refines the specification on well-formed histories serves every history
+   of datagrams without a panic, with exactly the datagrams the specification sends *)
+Section StoreHistory.
+  Context {S : Type} (I : store_if S) (init : S).
+  Hypothesis refines : ∀ ops, Forall sop_wf ops → ∀ ih v6, ih_wf ih →
+    observe I (srun I init ops).1 ih v6 = observe spec_if (run_spec ops) ih v6.
+
+  Theorem udp_history_store_no_panic mac t u (reqs : list (Z * list Z * list Z)) :
+    Forall udp_req_wf reqs →
+    ∃ st sp outs ops,
+      udp_run_on I mac t u init reqs = Some (st, outs) ∧
+      udp_run mac t u spec_init reqs = Some (sp, outs) ∧
+      st = (srun I init ops).1 ∧ sp = run_spec ops ∧ keys_ok sp ∧
+      length outs = length reqs ∧ Forall (λ out, (length out <= 1)%nat) outs.
+  Proof.
+    intros Hw.
+    destruct (udp_history_no_panic mac t u reqs Hw) as (sp0 & outs0 & E0 & _ & L0 & F0).
+    unfold udp_run, udp_run_on in *.
+    assert (G : ∀ ops outs, Forall sop_sane ops → Forall sop_wf ops →
+      ∃ st sp outs' ops',
+        fold_left (udp_run_step_on I mac t u) reqs (Some ((srun I init ops).1, outs)) = Some (st, outs') ∧
+        fold_left (udp_run_step mac t u) reqs (Some (run_spec ops, outs)) = Some (sp, outs') ∧
+        st = (srun I init ops').1 ∧ sp = run_spec ops' ∧ keys_ok sp).
+    { clear E0 L0 F0. induction reqs as [|[[clock ip] packet] reqs IH]; intros ops outs Hs Hwf.
+      - exists (srun I init ops).1, (run_spec ops), outs, ops. cbn. repeat split; try done. by apply run_spec_keys_ok.
+      - apply Forall_cons in Hw as [(Hpw & Hipw & Hip) Hw']. cbn [fold_left udp_run_step udp_run_step_on].
+        pose proof (run_spec_keys_ok ops Hs) as Hk.
+        destruct (udp_step_no_panic mac t u (run_spec ops) clock ip packet Hk Hpw Hipw Hip) as (sp1 & out & Es & _ & _).
+        pose proof (udp_step_observe_wf I mac t u (srun I init ops).1 (run_spec ops) clock ip packet Hpw
+                      (refines ops Hwf)) as Eo.
+        rewrite Es in Eo.
+        destruct (udp_step I mac t u (srun I init ops).1 clock ip packet) as [[st1 out1]|] eqn:Em; [|done].
+        cbn in Eo. injection Eo as ->. rewrite Es.
+        set (ops1 := ops ++ udp_ops mac u clock ip packet).
+        assert (E1 : st1 = (srun I init ops1).1).
+        { unfold ops1. rewrite srun_app. destruct (srun I init ops) as [s0 c0] eqn:E0.
+          rewrite (udp_step_state _ _ _ _ _ _ _ _ _ _ c0 Em). done. }
+        assert (E2 : sp1 = run_spec ops1).
+        { unfold ops1, run_spec. rewrite srun_app. destruct (srun spec_if spec_init ops) as [s0 c0] eqn:E0.
+          rewrite (udp_step_state _ _ _ _ _ _ _ _ _ _ c0 Es). unfold run_spec. rewrite E0. done. }
+        rewrite E1, E2. destruct (udp_ops_sane mac u clock ip packet Hpw Hipw) as [Os Ow].
+        apply (IH Hw'); unfold ops1; apply Forall_app; done. }
+    destruct (G [] [] (List.Forall_nil _) (List.Forall_nil _)) as (st & sp & outs & ops & E1 & E2 & H).
+    change (run_spec []) with spec_init in E2. rewrite E0 in E2. injection E2 as <- <-.
+    destruct H as (H1 & H2 & H3).
+    exists st, sp0, outs0, ops. change (srun I init []).1 with init in E1. repeat split; assumption.
+  Qed.
+End StoreHistory.
+
+(* the memory store, any shard count *)
+Theorem udp_history_mem_no_panic n mac t u (reqs : list (Z * list Z * list Z)) :
+  (0 < n)%nat → Forall udp_req_wf reqs →
+  ∃ st sp outs ops,
+    udp_run_on (mem_if n) mac t u (mem_init n) reqs = Some (st, outs) ∧
+    udp_run mac t u spec_init reqs = Some (sp, outs) ∧
+    st = run_mem n ops ∧ sp = run_spec ops ∧ keys_ok sp ∧
+    length outs = length reqs ∧ Forall (λ out, (length out <= 1)%nat) outs.
+Proof.
+  intros Hn. apply (udp_history_store_no_panic (mem_if n) (mem_init n)).
+  intros ops _ ih v6 _. apply (MemP.mem_refines_spec n ops ih v6 Hn).
+Qed.
+
+(* the Redis store *)
+Corollary udp_step_redis_spec ops mac t u clock ip packet :
+  Forall sop_wf ops → wf_bytes packet = true →
+  option_map snd (udp_step red_if mac t u (run_redis ops) clock ip packet) =
+  option_map snd (udp_step spec_if mac t u (run_spec ops) clock ip packet).
+Proof.
+  intros Hwf Hpw. apply udp_step_observe_wf; [exact Hpw|]. intros ih v6 Hih. by apply RedisP.redis_refines_spec.
+Qed.
+
+Theorem udp_history_redis_no_panic mac t u (reqs : list (Z * list Z * list Z)) :
+  Forall udp_req_wf reqs →
+  ∃ st sp outs ops,
+    udp_run_on red_if mac t u redis_init reqs = Some (st, outs) ∧
+    udp_run mac t u spec_init reqs = Some (sp, outs) ∧
+    st = run_redis ops ∧ sp = run_spec ops ∧ keys_ok sp ∧
+    length outs = length reqs ∧ Forall (λ out, (length out <= 1)%nat) outs.
+Proof.
+  apply (udp_history_store_no_panic red_if redis_init).
+  intros ops Hwf ih v6 Hih. by apply RedisP.redis_refines_spec.
+Qed.
+
+(* ------------------------------------------------------------------ 8c. HTTP on the real stores *)
+Section HttpTransfer.
+  Context {S : Type} (I : store_if S).
+
+  Lemma http_announce_step_observe parse_ip header_get split_host t o (st : S) sp clock uri remote :
+    (∀ ih v6, observe I st ih v6 = observe spec_if sp ih v6) →
+    (http_announce_step I parse_ip header_get split_host t o st clock uri remote).2 =
+    (http_announce_step spec_if parse_ip header_get split_host t o sp clock uri remote).2.
+  Proof.
+    intros H. unfold http_announce_step.
+    destruct (HttpParse.parse_announce _ _ _ _ _ _) as [[r q]|e|]; try done.
+    rewrite (respond_observe I _ st sp H).
+    destruct (respond spec_if (ann_of_areq r) sp) as [[[c i] ps]|]; [|done].
+    destruct (http_announce_value _ _ _ _ _ _); done.
+  Qed.
+
+  Lemma http_scrape_step_observe parse_ip split_host split_ok o (st : S) sp uri remote :
+    (∀ ih v6, observe I st ih v6 = observe spec_if sp ih v6) →
+    http_scrape_step I parse_ip split_host split_ok o st uri remote =
+    http_scrape_step spec_if parse_ip split_host split_ok o sp uri remote.
+  Proof.
+    intros H. unfold http_scrape_step.
+    destruct (HttpParse.parse_scrape _ _) as [[ihs q]|e|]; try done.
+    destruct (HttpParse.scrape_route_af _ _ _ _) as [af|e|]; try done.
+    do 2 f_equal. apply map_ext. intros ih. specialize (H ih (match af with V6 => true | V4 => false end)).
+    unfold observe in H. injection H as Hs _. rewrite Hs. done.
+  Qed.
+End HttpTransfer.
+
+(* the memory store behind the HTTP announce route: same body as the specification, never a panic,
+   in every state reachable by sane store operations *)
+Theorem http_announce_mem_no_panic n ops parse_ip header_get split_host t o clock uri remote :
+  (0 < n)%nat → Forall sop_sane ops →
+  (∀ s ip, parse_ip s = Some ip → wf_bytes ip = true ∧ (length ip = 4 ∨ length ip = 16)%nat) →
+  wf_bytes uri = true →
+  ∃ v, (http_announce_step (mem_if n) parse_ip header_get split_host t o (run_mem n ops) clock uri remote).2 = HBody v ∧
+       (http_announce_step spec_if parse_ip header_get split_host t o (run_spec ops) clock uri remote).2 = HBody v.
+Proof.
+  intros Hn Hs Ho Hw.
+  rewrite (http_announce_step_observe (mem_if n) _ _ _ _ _ (run_mem n ops) (run_spec ops));
+    [|intros ih v6; apply MemP.mem_refines_spec, Hn].
+  destruct (http_announce_no_panic parse_ip header_get split_host t o (run_spec ops) clock uri remote Ho
+              (run_spec_keys_ok ops Hs) Hw) as (sp' & v & -> & _).
+  exists v. done.
+Qed.
+
+(* a toy keyed hash (32 bytes) standing in for HMAC-SHA256 *)
+Definition toy_mac (k m : list Z) : list Z :=
+  let s := fold_left Z.add (k ++ m) 17 in
+  [s mod 256; (s / 256) mod 256; (s * 7) mod 256; (s * 13 + 5) mod 256] ++ replicate 28 0.
+
+(* ------------------------------------------------------------------ the hypotheses are needed *)
+(* a source address that is neither 4 nor 16 bytes long reaches the explicit
+   panic("IP is neither v4 nor v6") of the connect path (net.UDPAddr never yields one) *)
+Example udp_bad_source_address_panics :
+  let t := {| t_interval := 0; t_min_interval := 0 |} in
+  let u := {| uc_key := []; uc_skew := 0;
+              uc_opts := {| UdpParse.o_spoof := false; UdpParse.o_max_nw := 100;
+                            UdpParse.o_def_nw := 50; UdpParse.o_max_scrape := 50 |} |} in
+  udp_step spec_if toy_mac t u spec_init 0 [1; 2; 3; 4; 5]
+           (ConnID.initial_connection_id ++ [0; 0; 0; 0] ++ [0; 0; 0; 1]) = None.
+Proof. vm_compute. done. Qed.
+
+(* a store holding a key that is not a serialised peer makes the response hook panic
+   (decodePeerKey): the invariant is needed, and announces alone never break it *)
+Example udp_bad_key_panics :
+  let a := {| a_ih := replicate 20 7; a_v6 := false;
+              a_peer := {| p_id := replicate 20 1; p_ip := [10; 0; 0; 1]; p_port := 6881 |};
+              a_left := 0; a_event := EvNone; a_numwant := 50 |} in
+  respond spec_if a (run_spec [SPutLeecher (replicate 20 7) false [1; 2; 3]]) = None.
+Proof. vm_compute. done. Qed.
+
+(* ------------------------------------------------------------------ 9. non-vacuity *)
+Example udp_three_datagrams :
+  let t := {| t_interval := 1800 * 1000000000; t_min_interval := 900 * 1000000000 |} in
+  let u := {| uc_key := [1; 2; 3; 4]; uc_skew := 10 * 1000000000;
+              uc_opts := {| UdpParse.o_spoof := false; UdpParse.o_max_nw := 100;
+                            UdpParse.o_def_nw := 50; UdpParse.o_max_scrape := 50 |} |} in
+  let ip := [10; 0; 0; 1] in
+  let now := 1700000000 * 1000000000 in
+  let ih := replicate 20 7 in
+  let pid := replicate 20 1 in
+  let garbage := [1; 2; 3] in
+  let connect := ConnID.initial_connection_id ++ UdpWrite.be32 0 ++ [0; 0; 0; 1] in
+  match udp_step spec_if toy_mac t u spec_init now ip garbage with
+  | Some (sp1, []) =>
+    match udp_step spec_if toy_mac t u sp1 now ip connect with
+    | Some (sp2, [d2]) =>
+      let connid := skipn 8 d2 in
+      let announce := connid ++ UdpWrite.be32 1 ++ [0; 0; 0; 2] ++ ih ++ pid ++
+                      be_enc 8 0 ++ be_enc 8 5 ++ be_enc 8 0 ++ UdpWrite.be32 2 ++ [0; 0; 0; 0] ++
+                      [0; 0; 0; 0] ++ UdpWrite.be32 50 ++ UdpWrite.be16 6881 in
+      firstn 8 d2 = UdpWrite.be32 0 ++ [0; 0; 0; 1] ∧
+      connid = ConnID.generate toy_mac [1; 2; 3; 4] ip now ∧
+      match udp_step spec_if toy_mac t u sp2 (now + 1000000000) ip announce with
+      | Some (sp3, [d3]) =>
+        (* the first leecher of an empty swarm gets itself back, counted *)
+        d3 = UdpWrite.be32 1 ++ [0; 0; 0; 2] ++ UdpWrite.be32 1800 ++ UdpWrite.be32 1 ++ UdpWrite.be32 0 ++
+             [10; 0; 0; 1] ++ UdpWrite.be16 6881 ∧
+        st_scrape spec_if ih false sp3 = (0, 1) ∧
+        (* and the whole history through the fold *)
+        option_map snd (udp_run toy_mac t u spec_init
+                                [(now, ip, garbage); (now, ip, connect); (now + 1000000000, ip, announce)])
+        = Some [[]; [d2]; [d3]]
+      | _ => False
+      end
+    | _ => False
+    end
+  | _ => False
+  end.
+Proof. vm_compute. done. Qed.
